@@ -15,11 +15,21 @@
   * `closing()` is read: by `Serve` before every `Accept`; by `handleLoop` right after the
     registration (`closingCheck0`); by `handle` AFTER the request was read (`closingCheck`);
     by `writeResponse` before the head is written.
+  * `Shutdown` and `Close` may be called any number of times, one after the other or concurrently:
+    every call is a goroutine of its own (`shuts k`, `closes k`, k = the call's number) with its own
+    context.  `close(closeCh)` is under `closeOnce`: the first of them sets `closing`, the others
+    find it set — and go on exactly as the first did (Shutdown polls the counter, Close walks the
+    map).  A call waits in `connsMu.Lock()` while another call (or a handler) holds the mutex.
+  * a context (`SCall`) is done for good once it is done, and for ONE reason: its deadline passed
+    (`ctxExpire`, impossible for a context without deadline: `noLimit`) or it was cancelled
+    (`ctxCancel`, possible only if somebody can cancel it: `cancellable`).  `ctx.Err()` names that
+    reason (`Why`): DeadlineExceeded or Canceled.
   * the context `run` hands to `Shutdown` is built by `shutdownContext` (shutdown.go) from the
-    configured shutdown timeout: a positive timeout gives a context that may expire (`ctxExpire`),
-    the timeout 0 ("no limit") gives one that NEVER expires.  This is the parameter `noLimit` of the
-    initial state (`init` / `initNoLimit`); no action changes it.  (rig b: the context handed to
-    `Shutdown(ctx)` by the caller.)
+    configuration: a positive shutdown timeout gives a deadline, the timeout 0 ("no limit") none
+    (`cfgNoLimit`); a non-empty `ShutdownSignals` makes it cancellable — a SECOND shutdown signal
+    during the drain cancels it (`cfgSignals`).  Both are parameters of the initial state
+    (`initCfg`); no action changes them.  Whatever the reason for which `Shutdown` returned an error,
+    `run` goes on to `Close`.
   * a successful CONNECT is answered with the fixed bytes `HTTP/1.1 200 OK\r\n\r\n`
     (`writeConnectOKResponse`), which carry no `Connection` field, and keeps its connection
     (`writeResponse`: `res.Close = false` for the 2xx of a CONNECT, closing or not): `tunnel` goes on
@@ -61,14 +71,32 @@ inductive PC where
   | unregistered        -- goroutine finished
   deriving DecidableEq, Repr, Inhabited, Hashable
 
+/-- number of a call of `Shutdown` resp. of `Close` (each call is a goroutine of its own) -/
+abbrev CallId := Nat
+
 /-- who holds `connsMu` -/
 inductive Holder where
-  | none | shutdown | closer | conn (c : ConnId)
+  | none | shutdown (k : CallId) | closer (k : CallId) | conn (c : ConnId)
   deriving DecidableEq, Repr, Inhabited, Hashable
 
-/-- the goroutine executing `Shutdown(ctx)` -/
+/-- a goroutine executing `Shutdown(ctx)` -/
 inductive SPC where
   | idle | waitingForLock | locked | polling | selecting | retNil | retErr | doneNil | doneErr
+  deriving DecidableEq, Repr, Inhabited, Hashable
+
+/-- why a context is done: `ctx.Err()` = `DeadlineExceeded` resp. `Canceled` -/
+inductive Why where
+  | deadline | cancel
+  deriving DecidableEq, Repr, Inhabited, Hashable
+
+/-- one call of `Shutdown(ctx)`: its goroutine and its context -/
+structure SCall where
+  pc : SPC := .idle
+  noLimit : Bool := false       -- the context has no deadline: it never expires
+  cancellable : Bool := false   -- somebody can cancel the context (a second shutdown signal; the caller's cancel func)
+  done : Option Why := none     -- `ctx.Done()` is closed, and why
+  -- ghost (never read by a guard)
+  sawClosing : Bool := false    -- `closing` was already set when this call came to `closeOnce.Do`
   deriving DecidableEq, Repr, Inhabited, Hashable
 
 /-- the goroutine executing `Close()` -/
@@ -260,18 +288,26 @@ structure State where
   ids : List ConnId := []               -- connections that exist (newest first)
   listenerOpen : Bool := true
   serve : SrvPC := .checking
-  shut : SPC := .idle
-  ctxExpired : Bool := false
-  noLimit : Bool := false               -- the context given to `Shutdown` has no deadline (shutdown timeout 0): it never expires
-  close : CPC := .idle
+  shuts : CallId → SCall := fun _ => {} -- the calls of `Shutdown`
+  closes : CallId → CPC := fun _ => .idle -- the calls of `Close`
   runner : RPC := .idle
-  sweepLeft : List ConnId := []         -- `Close`: connections of its `range p.conns` not yet closed
+  runShut : CallId := 0                 -- the call of `Shutdown` made by `run`
+  runClose : CallId := 0                -- the call of `Close` made by `run`
+  cfgNoLimit : Bool := false            -- configuration: shutdown timeout 0, `shutdownContext` adds no deadline
+  cfgSignals : Bool := false            -- configuration: `ShutdownSignals` non-empty, a second signal cancels the drain
+  sweepLeft : List ConnId := []         -- `Close` (the one holding the mutex): connections of its `range p.conns` not yet closed
+  -- ghost (never read by a guard of the code; `api` only separates the two ways of driving the proxy)
+  api : Bool := false                   -- `Shutdown` / `Close` were called directly (not by `run`)
+  everClosed : Bool := false            -- some `Close` has started its walk over the map
+
+/-- the initial state of a proxy with the given shutdown configuration -/
+def initCfg (noLimit signals : Bool) : State := { cfgNoLimit := noLimit, cfgSignals := signals }
 
 def init : State := {}
 
 /-- the initial state of a proxy configured with shutdown timeout 0 = no limit (`shutdownContext`
-    adds no deadline), resp. of a `Shutdown(ctx)` whose context never expires -/
-def initNoLimit : State := { noLimit := true }
+    adds no deadline) and no shutdown signals: the context `run` hands to `Shutdown` is never done -/
+def initNoLimit : State := { cfgNoLimit := true }
 
 inductive Action where
   | conn (c : ConnId) (a : CAct)
@@ -288,21 +324,37 @@ inductive Action where
   | respSeen (c : ConnId) (cl : Bool)
   | echoSeen (c : ConnId)
   | closedSeen (c : ConnId)
-  -- callers of the API
-  | listenerClose | shutdownCall | shutdownRet (isNil : Bool) | closeCall | closeRet | ctxExpire
+  -- callers of the API: call number `k` of `Shutdown` (with the kind of its context) / of `Close`;
+  -- `shutdownRet k r`: the caller sees call `k` return `r` (`none` = nil, `some w` = the context's error)
+  | listenerClose | shutdownCall (k : CallId) (noLimit cancellable : Bool) | shutdownRet (k : CallId) (r : Option Why)
+  | closeCall (k : CallId) | closeRet (k : CallId)
+  -- the context of call `k` of `Shutdown`
+  | ctxExpire (k : CallId) | ctxCancel (k : CallId)
   | cancel | runRet
   -- Serve
   | serveCheck | accept (c : ConnId)
-  -- Shutdown
-  | shutLock | shutCloseCh | shutPoll | shutTimer | shutCtx | shutUnlock
-  -- Close
-  | closeLock | closeCloseCh | closeConn (c : ConnId) | closeAll | closeUnlock
-  -- HTTPProxy.run
-  | runCloseListeners | runShutdown | runAfterShutdown | runAfterClose
+  -- Shutdown, call `k`
+  | shutLock (k : CallId) | shutCloseCh (k : CallId) | shutPoll (k : CallId) | shutTimer (k : CallId)
+  | shutCtx (k : CallId) | shutUnlock (k : CallId)
+  -- Close, call `k`
+  | closeLock (k : CallId) | closeCloseCh (k : CallId) | closeConn (k : CallId) (c : ConnId) | closeAll (k : CallId)
+  | closeUnlock (k : CallId)
+  -- HTTPProxy.run (`k`: the numbers its calls of Shutdown / Close get)
+  | runCloseListeners | runShutdown (k : CallId) | runAfterShutdown (k : CallId) | runAfterClose
   deriving DecidableEq, Repr, Inhabited
 
 def setConn (s : State) (c : ConnId) (x : Conn) : State :=
   { s with conns := fun d => if d = c then x else s.conns d }
+
+def setShut (s : State) (k : CallId) (x : SCall) : State :=
+  { s with shuts := fun j => if j = k then x else s.shuts j }
+
+def setClose (s : State) (k : CallId) (x : CPC) : State :=
+  { s with closes := fun j => if j = k then x else s.closes j }
+
+/-- a context becomes done for the first reason that occurs -/
+def ctxDone (x : SCall) (w : Why) : SCall :=
+  { x with done := match x.done with | none => some w | some w' => some w' }
 
 def applyEff (s : State) (c : ConnId) : Eff → State
   | .none => s
@@ -359,17 +411,26 @@ def step (s : State) : Action → Option State
   | .closedSeen c =>
     if (s.conns c).sockClosed = true ∨ (s.conns c).pc = .reset then some s else none
   | .listenerClose => some (if s.listenerOpen then closeListener s else s)
-  | .shutdownCall =>
-    if s.shut = .idle ∧ s.runner = .idle then some { s with shut := .waitingForLock } else none
-  | .shutdownRet isNil =>
-    if (isNil = true ∧ s.shut = .doneNil) ∨ (isNil = false ∧ s.shut = .doneErr) then some s else none
-  | .closeCall =>
-    if s.close = .idle ∧ s.runner = .idle then some { s with close := .waitingForLock } else none
-  | .closeRet => if s.close = .done then some s else none
-  | .ctxExpire =>
-    -- a context without deadline never expires
-    if s.noLimit = true then none else some { s with ctxExpired := true }
-  | .cancel => if s.runner = .idle ∧ s.shut = .idle ∧ s.close = .idle then some { s with runner := .cancelled } else none
+  | .shutdownCall k nl cb =>
+    if (s.shuts k).pc = .idle ∧ s.runner = .idle then
+      some { setShut s k { pc := .waitingForLock, noLimit := nl, cancellable := cb } with api := true }
+    else none
+  | .shutdownRet k r =>
+    match r with
+    | none => if (s.shuts k).pc = .doneNil then some s else none
+    | some w => if (s.shuts k).pc = .doneErr ∧ (s.shuts k).done = some w then some s else none
+  | .closeCall k =>
+    if s.closes k = .idle ∧ s.runner = .idle then some { setClose s k .waitingForLock with api := true } else none
+  | .closeRet k => if s.closes k = .done then some s else none
+  | .ctxExpire k =>
+    -- the context exists from the call on; one without deadline never expires
+    if (s.shuts k).pc ≠ .idle ∧ (s.shuts k).noLimit = false then some (setShut s k (ctxDone (s.shuts k) .deadline))
+    else none
+  | .ctxCancel k =>
+    -- … and only a context somebody can cancel is ever cancelled
+    if (s.shuts k).pc ≠ .idle ∧ (s.shuts k).cancellable = true then some (setShut s k (ctxDone (s.shuts k) .cancel))
+    else none
+  | .cancel => if s.runner = .idle ∧ s.api = false then some { s with runner := .cancelled } else none
   | .runRet => if s.runner = .finished then some s else none
   | .serveCheck =>
     if s.serve = .checking then
@@ -379,50 +440,61 @@ def step (s : State) : Action → Option State
     if s.serve = .accepting ∧ s.listenerOpen = true ∧ (s.conns c).pc = .backlog then
       some { setConn s c { s.conns c with pc := .accepted } with serve := .checking }
     else none
-  | .shutLock =>
-    if s.shut = .waitingForLock ∧ s.lock = .none then some { s with shut := .locked, lock := .shutdown } else none
-  | .shutCloseCh =>
-    if s.shut = .locked then some { s with shut := .polling, closing := true } else none
-  | .shutPoll =>
-    if s.shut = .polling then some { s with shut := if s.counter = 0 then .retNil else .selecting } else none
-  | .shutTimer =>
-    if s.shut = .selecting then some { s with shut := .polling } else none
-  | .shutCtx =>
-    if s.shut = .selecting ∧ s.ctxExpired = true then some { s with shut := .retErr } else none
-  | .shutUnlock =>
-    if s.shut = .retNil then some { s with shut := .doneNil, lock := .none }
-    else if s.shut = .retErr then some { s with shut := .doneErr, lock := .none }
+  | .shutLock k =>
+    if (s.shuts k).pc = .waitingForLock ∧ s.lock = .none then
+      some { setShut s k { s.shuts k with pc := .locked } with lock := .shutdown k } else none
+  | .shutCloseCh k =>
+    -- `closeOnce.Do(close(closeCh))`: whether or not this call is the one that closes the channel, it goes
+    -- on to poll the counter
+    if (s.shuts k).pc = .locked then
+      some { setShut s k { s.shuts k with pc := .polling, sawClosing := s.closing } with closing := true } else none
+  | .shutPoll k =>
+    if (s.shuts k).pc = .polling then
+      some (setShut s k { s.shuts k with pc := if s.counter = 0 then .retNil else .selecting }) else none
+  | .shutTimer k =>
+    if (s.shuts k).pc = .selecting then some (setShut s k { s.shuts k with pc := .polling }) else none
+  | .shutCtx k =>
+    if (s.shuts k).pc = .selecting ∧ (s.shuts k).done.isSome = true then
+      some (setShut s k { s.shuts k with pc := .retErr }) else none
+  | .shutUnlock k =>
+    if (s.shuts k).pc = .retNil then some { setShut s k { s.shuts k with pc := .doneNil } with lock := .none }
+    else if (s.shuts k).pc = .retErr then some { setShut s k { s.shuts k with pc := .doneErr } with lock := .none }
     else none
-  | .closeLock =>
-    if s.close = .waitingForLock ∧ s.lock = .none then some { s with close := .locked, lock := .closer } else none
-  | .closeCloseCh =>
+  | .closeLock k =>
+    if s.closes k = .waitingForLock ∧ s.lock = .none then some { setClose s k .locked with lock := .closer k } else none
+  | .closeCloseCh k =>
     -- `for conn := range p.conns` starts: the loop will visit what is in the map now (the map cannot
     -- change while Close holds the mutex)
-    if s.close = .locked then some { s with close := .closedCh, closing := true, sweepLeft := s.registered } else none
-  | .closeConn c =>
+    if s.closes k = .locked then
+      some { setClose s k .closedCh with closing := true, sweepLeft := s.registered, everClosed := true } else none
+  | .closeConn k c =>
     -- one iteration of the loop (map order is arbitrary): `conn.Close()`
-    if s.close = .closedCh ∧ c ∈ s.sweepLeft ∧ c ∈ s.ids then
+    if s.closes k = .closedCh ∧ c ∈ s.sweepLeft ∧ c ∈ s.ids then
       some { setConn s c { s.conns c with sockClosed := true } with sweepLeft := s.sweepLeft.erase c }
     else none
-  | .closeAll =>
+  | .closeAll k =>
     -- the loop is over
-    if s.close = .closedCh ∧ s.sweepLeft = [] then some { s with close := .closedConns } else none
-  | .closeUnlock =>
-    if s.close = .closedConns then some { s with close := .done, lock := .none } else none
+    if s.closes k = .closedCh ∧ s.sweepLeft = [] then some (setClose s k .closedConns) else none
+  | .closeUnlock k =>
+    if s.closes k = .closedConns then some { setClose s k .done with lock := .none } else none
   | .runCloseListeners =>
     if s.runner = .cancelled then
       some { (if s.listenerOpen then closeListener s else s) with runner := .listenersClosed }
     else none
-  | .runShutdown =>
-    if s.runner = .listenersClosed ∧ s.shut = .idle then
-      some { s with runner := .inShutdown, shut := .waitingForLock } else none
-  | .runAfterShutdown =>
-    if s.runner = .inShutdown ∧ s.shut = .doneNil then some { s with runner := .finished }
-    else if s.runner = .inShutdown ∧ s.shut = .doneErr ∧ s.close = .idle then
-      some { s with runner := .inClose, close := .waitingForLock }
+  | .runShutdown k =>
+    -- `ctx, cancel := shutdownContext(cfg)`; `hp.proxy.Shutdown(ctx)`
+    if s.runner = .listenersClosed ∧ (s.shuts k).pc = .idle then
+      some { setShut s k { pc := .waitingForLock, noLimit := s.cfgNoLimit, cancellable := s.cfgSignals } with
+             runner := .inShutdown, runShut := k }
+    else none
+  | .runAfterShutdown k =>
+    -- `if err := Shutdown(ctx); err != nil { Close() }`: for EVERY error
+    if s.runner = .inShutdown ∧ (s.shuts s.runShut).pc = .doneNil then some { s with runner := .finished }
+    else if s.runner = .inShutdown ∧ (s.shuts s.runShut).pc = .doneErr ∧ s.closes k = .idle then
+      some { setClose s k .waitingForLock with runner := .inClose, runClose := k }
     else none
   | .runAfterClose =>
-    if s.runner = .inClose ∧ s.close = .done then some { s with runner := .finished } else none
+    if s.runner = .inClose ∧ s.closes s.runClose = .done then some { s with runner := .finished } else none
 
 /-- run a sequence of actions; `none` when one of them is not enabled -/
 def run (s : State) : List Action → Option State
@@ -432,11 +504,47 @@ def run (s : State) : List Action → Option State
     | some s' => run s' as
     | none => none
 
-/-- reachable by some interleaving from an initial state (either kind of context) -/
+/-- reachable by some interleaving from an initial state (any shutdown configuration) -/
 inductive Reachable : State → Prop where
-  | init : Reachable init
-  | initNoLimit : Reachable initNoLimit
+  | start (noLimit signals : Bool) : Reachable (initCfg noLimit signals)
   | step {s s' : State} (a : Action) : Reachable s → step s a = some s' → Reachable s'
+
+theorem Reachable.init : Reachable init := Reachable.start false false
+
+theorem Reachable.initNoLimit : Reachable initNoLimit := Reachable.start true false
+
+/-! ## Variants that are NOT the code
+
+  Two plausible rewrites of `Shutdown` and of `run`, kept to show that the theorems tell them from the
+  code (`Theorems/C11.lean`, witnesses). -/
+
+structure Variant where
+  /-- `Shutdown` made "idempotent": a call that finds `closing` already set returns nil at once,
+      without looking at the counter -/
+  earlyNil : Bool := false
+  /-- `run` calls `Close` only when `Shutdown` returned `DeadlineExceeded` (not when the drain was
+      ended by a second signal, `Canceled`) -/
+  closeOnDeadlineOnly : Bool := false
+  deriving DecidableEq, Repr
+
+def stepV (v : Variant) (s : State) : Action → Option State
+  | .shutCloseCh k =>
+    if v.earlyNil = true ∧ (s.shuts k).pc = .locked ∧ s.closing = true then
+      some (setShut s k { s.shuts k with pc := .retNil, sawClosing := true })
+    else step s (.shutCloseCh k)
+  | .runAfterShutdown k =>
+    if v.closeOnDeadlineOnly = true ∧ s.runner = .inShutdown ∧ (s.shuts s.runShut).pc = .doneErr ∧
+        (s.shuts s.runShut).done = some .cancel then
+      some { s with runner := .finished }
+    else step s (.runAfterShutdown k)
+  | a => step s a
+
+def runV (v : Variant) (s : State) : List Action → Option State
+  | [] => some s
+  | a :: as =>
+    match stepV v s a with
+    | some s' => runV v s' as
+    | none => none
 
 /-- number of connections between register and counterDec -/
 def cnt (f : ConnId → Conn) : List ConnId → Int
